@@ -215,11 +215,22 @@ def build_case(prog, reactor, stagelog):
             raise AssertionError("F@" + name)
         if k == "skip":
             case.skipTest("S@" + name)
+        # what is handed back may be a Deferred subclass, or the Deferred gatherResults() makes (a DeferredList)
+        dtype = b.get("dtype")
+
+        class SubDeferred(defer.Deferred):
+            pass
+        D = SubDeferred if dtype == "subclass" else defer.Deferred
+        wrap = (lambda x: defer.gatherResults([x])) if dtype == "gather" else (lambda x: x)
         if k == "fired":
-            return defer.succeed(None)
+            d = D()
+            d.callback(None)
+            return wrap(d)
         if k == "failed":
-            return defer.fail(exc_type("E@" + name))
-        d = defer.Deferred()
+            d = D()
+            d.errback(exc_type("E@" + name))
+            return d
+        d = D()
         d.addBoth(lambda r: (stagelog.append(("fired", name, reactor.seconds())), r)[1])
         if late:
             d.addBoth(register_late)
@@ -227,7 +238,8 @@ def build_case(prog, reactor, stagelog):
             reactor.callLater(b["arg"], d.callback, None)
         elif k == "fail_at":
             reactor.callLater(b["arg"], d.errback, exc_type("E@" + name))
-        return d
+            return d
+        return wrap(d)
 
     class Prog(testtools.TestCase):
         run_tests_with = runner.make_factory(
@@ -357,8 +369,39 @@ def x_history(ctx, case):
                       "rerun.same-stages-and-outcome",
                       lambda: {"first": first, "second": second, "propagated": repr(propagated),
                                "pending": [str(c) for c in reactor.getDelayedCalls()], "prog": prog})
+        leftover1 = []
+        if m["kind"] == "timeout" and not m["ties"] and propagated is None and ok:
+            # the SAME instance run again after a run that timed out (its cleanups were abandoned with it), this time
+            # with stages that all return at once and one cleanup of its own: one outcome, success, and only what
+            # THIS run registered is run
+            leftover1 = flush_logged_errors()       # (still reported below)
+            saved = {k: prog.get(k) for k in ("setUp", "test", "tearDown", "cleanups", "stop_at", "slow_work")}
+            prog.update({"setUp": {"end": "ret"}, "test": {"end": "ret"}, "tearDown": {"end": "ret"},
+                         "cleanups": [{"end": "ret"}]})
+            prog.pop("stop_at", None)
+            prog.pop("slow_work", None)
+            del stagelog[:]
+            log2 = recorders.Log()
+            prop2 = None
+            try:
+                the_case.run(recorders.ExtRecorder(log2))
+            except BaseException as e:  # noqa
+                prop2 = e
+            for k, v in saved.items():
+                if v is None:
+                    prog.pop(k, None)
+                else:
+                    prog[k] = v
+            core2 = [n for n in log2.names() if n in ("startTest", "stopTest") or n in recorders.OUTCOMES]
+            entered2 = [n for k2, n, t in stagelog if k2 == "enter"]
+            ctx.check(core2 == ["startTest", "addSuccess", "stopTest"] and prop2 is None
+                      and entered2 == ["setUp", "test", "tearDown", "cleanup0"] and not reactor.getDelayedCalls()
+                      and observers() == obs_before, "rerun.clean-run-after-a-timed-out-one",
+                      lambda: {"first run": prog, "second run (all stages return at once, one cleanup)": core2,
+                               "stages entered": entered2, "propagated": repr(prop2),
+                               "pending": [str(c) for c in reactor.getDelayedCalls()]})
         # keep the process-global error observer clean for the next program, as a user would
-        leftover = flush_logged_errors()
+        leftover = leftover1 + flush_logged_errors()
         ctx.check(not leftover, "after.no-logged-error-left-for-the-next-test",
                   lambda: {"leftover": [repr(f) for f in leftover], **detail()})
     return nontrivial
@@ -581,6 +624,21 @@ def run(ctx):
             ctx.execute("history", {"progs": [prog]})
     ctx.note_space("a cleanup registered when a stage completes: 5 stages x 5 endings x {0, 2} earlier cleanups x 2 "
                    "runners, plus setUp failing before a Deferred-returning cleanup", n)
+    # stages and cleanups handing back a Deferred SUBCLASS / the DeferredList gatherResults() makes
+    n = 0
+    for runner in ("plain", "broken"):
+        for slot in slots:
+            for dtype in ("subclass", "gather"):
+                for b in ({"end": "fire_at", "arg": 0.5}, {"end": "fire_at", "arg": 2.5}, {"end": "fired"}, {"end": "never"},
+                          {"end": "fail_at", "arg": 0.5}):
+                    if ctx.mine():
+                        n += 1
+                        ctx.execute("history", {"progs": [make([(slot, dict(b, dtype=dtype))], 2.0, None, runner)]})
+                    if slot.startswith("cleanup") and ctx.mine():
+                        n += 1
+                        ctx.execute("history", {"progs": [make([(s2, dict(b, dtype=dtype)) for s2 in slots
+                                                                 if s2.startswith("cleanup")], 4.0, None, runner)]})
+    ctx.note_space("a Deferred subclass / a gatherResults() DeferredList handed back: 2 runners x 5 stages x 2 x 5 endings", n)
     # two-test histories and random programs
     ctx.notes["random_cases"] = True
 
@@ -591,6 +649,9 @@ def run(ctx):
             p[s] = dict(rng.choice(ENDS)) if rng.random() < 0.35 else dict(PLAIN)
         p["cleanups"] = [dict(rng.choice(ENDS)) if rng.random() < 0.35 else dict(PLAIN)
                          for _ in range(rng.randint(0, 3))]
+        for b in [p[s] for s in STAGES] + p["cleanups"]:
+            if b["end"] in ("fire_at", "fail_at", "never", "fired", "failed") and rng.random() < 0.3:
+                b["dtype"] = rng.choice(["subclass", "gather"])
         if rng.random() < 0.25:
             slot = rng.choice(STAGES + ["cleanups"])
             tgt = p[slot] if slot != "cleanups" else (rng.choice(p["cleanups"]) if p["cleanups"] else p["test"])
